@@ -104,14 +104,15 @@ def run_mc(prop, cfg, tier, work, res, emit=True):
     def one(fn):
         return common.run_tlc("MC_Tier", fn, work, workers=1, timeout=7200)
 
-    vectors = []
+    vectors = common.LazyVectors()
     design_fail = []
     with ThreadPoolExecutor(max_workers=common.NCPU) as ex:
         for r in ex.map(one, jobs):
             res.add_tlc(r)
             if common.tlc_failed(r):
                 design_fail.append(r["out"][-4000:])
-            vectors.extend(common.parse_json_lines(r["out"]))
+            vectors.extend_from(r["out"])
+            r["out"] = r["out"][-4000:]
     return vectors, design_fail, consts
 
 
